@@ -281,12 +281,12 @@ theorem format_ne_panic (secs : List Sec) (value : Str) (cn : Bool) (n : NumIn) 
   · simp
   · split
     · split
-      · apply Out.map_ne_panic
+      · apply Out.finish_ne_panic
         unfold positiveHandler
         split
         · simp
         · exact positiveLoop_ne_panic _ _ _ _ _ h _ _
-      · apply Out.map_ne_panic
+      · apply Out.finish_ne_panic
         unfold negativeHandler
         split
         · simp
